@@ -129,7 +129,7 @@ static Plan plan_C02(Rng& r, const std::string&) {
 			int k = r.range(1, 3);
 			for (int i = 0; i < k; ++i) {
 				switch (r.below(4)) {
-					case 0: g.push(mk(c, "et_union", {a, b, long(r.below(3))}), 0); break;
+					case 0: g.push(mk(c, "et_union", {a, b, long(r.below(4))}), 0); break;
 					case 1: g.push(mk(c, "et_union_disj", {a, b}), 0); break;
 					case 2: g.push(mk(c, "et_isect", {a, b, long(r.below(3))}), 0); break;
 					default: g.push(mk(c, "et_isect_bu", {a, b, long(r.below(3))}), 0); break;
